@@ -25,7 +25,7 @@ CLAIMED = {
    text="For every (program, reader variant) the complete set of single-fault positions is enumerated — every rune start for the RuneScanner, every byte offset for the io.Reader behind bufio, with persistent, transient, data+err, chunked and zero-progress behaviours — and each is run under both extreme schedules and a seeded one. Whenever the failure was delivered to the parser the returned error must be non-nil and errors.Is the injected error (io.ErrNoProgress for zero-progress), and the call must return.",
    note="Programs and schedules are sampled; the single-fault space per program is enumerated completely. For io.Reader sources the obligation is restricted to faults inside the extent the fault-free run consumed (bufio read-ahead may swallow later faults unseen).", ref="DESIGN.md §5 C10"),
  "C18": dict(cat="fault_enumeration", tech="writer fault injection with complete enumeration of failure offsets (fail-after-k, short write, chunked) x 256 printer Configs; fix-point, determinism and tree-purity oracles",
-   text="Every program is printed under all 256 Configs in a fault-free lane (second print identical, deep dump of the tree unchanged, re-parse succeeds and prints to the same bytes) and, for 8 seeded Configs, against writers that fail / short-write after k bytes for every k in [0,L] (sampled around the 4096/8192-byte bufio boundaries for large outputs) or accept only small chunks: a fault before the end must be returned as an error that errors.Is the injected one (io.ErrShortWrite for short writes), the accepted bytes must be a prefix of the fault-free output, nothing panics, the tree is unchanged and the next fault-free print is unchanged.",
+   text="Every program is printed under all 256 Configs in a fault-free lane (second print identical, deep dump of the tree unchanged, re-parse succeeds and prints to the same bytes) and, for 8 seeded Configs, against writers that fail / short-write after k bytes for every k in [0,L] (sampled around the 4096/8192-byte bufio boundaries for large outputs) or accept only small chunks: a fault before the end must be returned as an error that errors.Is the injected one (io.ErrShortWrite for short writes), the accepted bytes must be a prefix of the fault-free output, nothing panics, the tree is unchanged and the next fault-free print is unchanged. Comment, word and word-part nodes are printed to writers failing after every k as well.",
    note="No concurrency is involved (the printer is sequential): this check uses the simulator's fault-injecting writer but not its scheduler. Programs are sampled; the single-fault space per (program, Config, kind) is enumerated completely for outputs up to 512 bytes.", ref="DESIGN.md §5 C18"),
  "C20": dict(cat="exploration", tech="deterministic simulation of operation histories on one ExecEnv (Eval/Expand steps under the seeded scheduler) checked step by step against a reference map model",
    text="Seeded histories of Set/Unset/Get/Walk/Args/Opts changes and assigning or failing expansions/evaluations over a small name universe (ordinary, case-differing, special, positional, multi-digit positional) are executed on the real ExecEnv; after every step Get of every name, the Walk set, Args, Opts, Aliases and the AST passed to Expand are compared with a plain map model written from the POSIX definitions, and the whole history must produce the same dump under parser-first, lexer-first and a seeded schedule.",
